@@ -192,6 +192,7 @@ pub fn main(spec_path: &str) {
     let mut auto_add = false;
     let mut paste = true;
     let mut signals = false;
+    let mut stdout_full = false;
     let mut max_hist = 100usize;
     let mut printer = false;
     let mut pause = false;
@@ -241,12 +242,22 @@ pub fn main(spec_path: &str) {
             "printers" => nprinters = t[1].parse().unwrap(),
             "printers_late" => printers_late = t[1] == "1",
             "linger" => linger = t[1] == "1",
+            "stdout_full" => stdout_full = t[1] == "1",
             "bind" => binds.push((parse_keys(t[1]), parse_cmd(&t[2..]))),
             // an SQLite history at this path: `history` lines are entered by an earlier session (the database is then
             // closed and reopened), `history2` lines by the session the reads run in
             "sqlite" => sqlite = Some(t[1].to_owned()),
             "history2" => history2.push(parse_str(t[1])),
             _ => panic!("spec line {l}"),
+        }
+    }
+    if stdout_full {
+        // standard output that accepts no byte (/dev/full): every write of the editor fails; standard input stays the terminal
+        use std::os::unix::io::IntoRawFd;
+        let fd = std::fs::OpenOptions::new().write(true).open("/dev/full").expect("/dev/full").into_raw_fd();
+        unsafe {
+            libc::dup2(fd, 1);
+            libc::close(fd);
         }
     }
     let config = Config::builder()
